@@ -67,7 +67,7 @@ def _params(draw, fam):
         if fam == "beta":
             return {"shape1": k(), "shape2": k()}
         if fam == "pois":
-            return {"mu": k(1, 40)}
+            return {"mu": k(0, 40)}          # a mean of exactly 0 is a valid (degenerate) Poisson law: all mass at 0
         if fam == "nbinom":
             return {"size": k(1, 25), "prob": draw(st.floats(0.05, 0.95).map(_sig))}
     if fam == "exp":
@@ -103,7 +103,10 @@ def strategy(tier):
         if fam == "nbinom":
             kinds.append("m")           # mean/size form vs (n,p) form
         kind = draw(st.sampled_from(kinds))
-        c = {"family": fam, "kind": kind, "params": draw(_params(fam)),
+        params = draw(_params(fam))
+        if fam == "pois" and params["mu"] == 0 and kind not in ("d", "p"):
+            params = {"mu": 1}               # quantiles / draws / round trips of a point mass are not exercised
+        c = {"family": fam, "kind": kind, "params": params,
              "use_defaults": draw(st.integers(0, 9)) == 0,
              "u": _sig(draw(st.floats(1e-4, 1 - 1e-4)), 8),
              "outside": draw(st.integers(0, 14)) == 0,
@@ -118,6 +121,8 @@ def strategy(tier):
         if kind in ("d", "p", "q") and fam != "nbinom" and draw(st.integers(0, 2)) == 0:
             # the same argument asked again for other parameter values (and back): no answer may depend on an earlier call
             c["again"] = [draw(_params(fam)) for _ in range(draw(st.integers(1, 2)))]
+            if kind == "q":
+                c["again"] = [({"mu": 1} if (fam == "pois" and P_.get("mu") == 0) else P_) for P_ in c["again"]]
         return c
     return case()
 
@@ -152,6 +157,8 @@ def _ref_pdf(fam, P, x):
         mu = mp.mpf(P["mu"])
         if x < 0 or x != mp.floor(x):
             return mp.mpf(0)
+        if mu == 0:
+            return mp.mpf(1) if x == 0 else mp.mpf(0)
         return mp.e ** (x * mp.log(mu) - mu - mp.loggamma(x + 1))
     if fam == "binom":
         n, p = mp.mpf(P["size"]), mp.mpf(P["prob"])
